@@ -1026,6 +1026,56 @@ func (c *genctx) genFloodAfterError() *scenario {
 	return sc
 }
 
+// genBlockedOnConnWindow: several responses parked on the connection window, released by one grant.
+func (c *genctx) genBlockedOnConnWindow() *scenario {
+	r := c.r
+	sc := &scenario{cfg: srvCfg{maxStreams: 100, maxHeaderList: 1 << 20, maxBody: 4 << 20}}
+	n := 3 + r.intn(4)
+	sid := uint32(1)
+	var ids []uint32
+	for i := 0; i < n; i++ {
+		f := newFrame('H', 5, sid)
+		f.payload = []byte{0x82, 0x84, 0x87}
+		sc.evs = append(sc.evs, frameEv(f))
+		ids = append(ids, sid)
+		sid += 2
+	}
+	for _, id := range ids {
+		rs := respSpec{status: 200, size: -1, body: r.bytes(r.pick(20000, 40000, 70000))}
+		if r.chance(25) {
+			rs.body = nil
+			rs.streamed = true
+			for k := 0; k < 3; k++ {
+				rs.reads = append(rs.reads, readRes{r.bytes(16384), 'n'})
+			}
+			rs.reads = append(rs.reads, readRes{nil, 'e'})
+		}
+		sc.evs = append(sc.evs, event{kind: 'D', sid: id, resp: rs})
+	}
+	// stream windows first (some), then the connection window in one or two grants
+	for _, id := range ids {
+		if r.chance(50) {
+			f := newFrame('W', 0, id)
+			f.inc = 1 << 20
+			sc.evs = append(sc.evs, frameEv(f))
+		}
+	}
+	for k := 1 + r.intn(2); k > 0; k-- {
+		f := newFrame('W', 0, 0)
+		f.inc = uint32(r.pick(1<<20, 1<<22, 30000))
+		sc.evs = append(sc.evs, frameEv(f))
+	}
+	if r.bool() {
+		f := newFrame('S', 0, 0)
+		f.settings = [][2]uint32{{4, 1 << 20}}
+		sc.evs = append(sc.evs, frameEv(f))
+	}
+	f := newFrame('W', 0, 0)
+	f.inc = 1 << 22
+	sc.evs = append(sc.evs, frameEv(f), event{kind: 'E'})
+	return sc
+}
+
 func genServer(c *genctx) {
 	n := c.n
 	for i := 0; i < n; i++ {
@@ -1038,6 +1088,9 @@ func genServer(c *genctx) {
 		case i%16 == 5:
 			sc = c.genGated()
 			kind = "gated-read-loop-ahead"
+		case i%16 == 2:
+			sc = c.genBlockedOnConnWindow()
+			kind = "responses-blocked-on-connection-window"
 		case i%16 == 9:
 			sc = c.genFollowUps()
 			kind = "in-flight-after-refusal-or-reset"
